@@ -58,6 +58,9 @@ TEMPLATES = {
     # an output variable read in an antecedent after an earlier rule has activated one of its terms
     "chain": ("if {o0} is t1 then {o1} is t2", None),
     "chain-and": ("if {o0} is t1 and a is lo then {o1} is t2", None),
+    # a consequent that fails to load after a first conclusion was read: the rule must stay unloaded (and is then skipped)
+    "bad-concl": ("if a is lo then {o0} is t1 and {o0} is zz", None),
+    "bad-concl-2": ("if a is lo or b is hi then {o0} is t2 and {o1}", None),
 }
 
 
@@ -109,8 +112,8 @@ def build(case):
             if r.get("loaded", True):
                 try:
                     rule.load(e)
-                except Exception:  # noqa: BLE001  (e.g. no such output variable: the rule stays unloaded)
-                    rule.unload()
+                except Exception:  # noqa: BLE001  (e.g. no such output variable / term: the rule is left as the failed load left it)
+                    pass
             rb.rules.append(rule)
         e.rule_blocks.append(rb)
     return e
@@ -253,7 +256,7 @@ def key(case):
 
 RULESETS = [["plain"], ["and"], ["or"], ["andor"], ["plain", "or"], ["and", "or"], ["two"], ["and", "two"], ["other", "plain"],
             ["tab-and"], ["paren-or"], ["plain", "paren-or"], [], ["orand"], ["or-paren-and"], ["and-paren-or"], ["plain", "orand"],
-            ["plain", "chain"], ["plain", "chain-and"], ["or", "chain"]]
+            ["plain", "chain"], ["plain", "chain-and"], ["or", "chain"], ["bad-concl"], ["plain", "bad-concl"], ["bad-concl-2", "and"]]
 
 
 def mk_rules(names, rng=None, flags=False):
